@@ -81,6 +81,13 @@ type recorder struct {
 	// stack items of the snapshots handed to the first callbacks, kept as handed (held) and as
 	// copied at that moment (was): a snapshot a debugger keeps must not change afterwards
 	held, was [][]byte
+	// the saved copy of the first stack (P2SH), as first seen: it must never change afterwards
+	savedFirst [][]byte
+	// stack depth (data + alt) at BeforeStep and the pushes / pops announced since then
+	depth0, pushes, pops int
+	inStep               bool
+	stepOp               byte
+	scriptChanged        bool // the alt stack is dropped and P2SH restores the saved stack at a script change
 }
 
 // retainedChanged reports a kept snapshot item that no longer has the bytes it was handed over with.
@@ -109,6 +116,15 @@ func (r *recorder) see(s *interpreter.State) {
 				_ = s.Opcode().Name()
 				_ = len(s.RemainingScript())
 			}
+		}
+	}
+	if s != nil && !r.scribble && r.badState == "" {
+		if r.savedFirst == nil && len(s.SavedFirstStack) > 0 {
+			for _, v := range s.SavedFirstStack {
+				r.savedFirst = append(r.savedFirst, append([]byte{}, v...))
+			}
+		} else if r.savedFirst != nil && !eqStack(r.savedFirst, s.SavedFirstStack) {
+			r.badState = fmt.Sprintf("a saved first stack reading %s although it was saved as %s", fmtStack(s.SavedFirstStack), fmtStack(r.savedFirst))
 		}
 	}
 	if !r.scribble && s != nil && r.states <= 96 && len(s.DataStack)+len(s.AltStack) <= 32 {
@@ -142,7 +158,17 @@ func (r *recorder) see(s *interpreter.State) {
 
 func (r *recorder) BeforeExecute(s *interpreter.State) { r.trace = append(r.trace, 'E'); r.see(s) }
 func (r *recorder) AfterExecute(s *interpreter.State)  { r.trace = append(r.trace, 'e'); r.see(s) }
-func (r *recorder) BeforeStep(s *interpreter.State)    { r.trace = append(r.trace, 'S'); r.see(s) }
+func (r *recorder) BeforeStep(s *interpreter.State) {
+	r.trace = append(r.trace, 'S')
+	if s != nil {
+		r.depth0, r.pushes, r.pops, r.inStep = len(s.DataStack)+len(s.AltStack), 0, 0, true
+		r.stepOp = 0xff
+		if len(s.Scripts) > 0 && s.ScriptIdx >= 0 && s.ScriptIdx < len(s.Scripts) && s.OpcodeIdx >= 0 && s.OpcodeIdx < len(s.Scripts[s.ScriptIdx]) {
+			r.stepOp = s.Opcode().Value()
+		}
+	}
+	r.see(s)
+}
 func (r *recorder) AfterStep(s *interpreter.State) {
 	r.trace = append(r.trace, 's')
 	snap := libSnap{}
@@ -153,6 +179,14 @@ func (r *recorder) AfterStep(s *interpreter.State) {
 		snap.Alt = append(snap.Alt, append([]byte{}, v...))
 	}
 	r.steps = append(r.steps, snap)
+	// a push opcode that grew the stack announces its push (not every depth change is announced:
+	// OP_NIP and friends remove items silently on the unchanged tree, so only pushes are demanded)
+	if r.inStep && !r.scribble && r.badState == "" && !r.scriptChanged && r.stepOp <= 0x60 && r.stepOp != 0x50 {
+		if d := len(s.DataStack) + len(s.AltStack) - r.depth0; d == 1 && r.pushes == 0 {
+			r.badState = fmt.Sprintf("a stack that grew by one item in the step of push opcode 0x%02x although no push callback fired", r.stepOp)
+		}
+	}
+	r.inStep, r.scriptChanged = false, false
 	r.see(s)
 }
 func (r *recorder) BeforeExecuteOpcode(s *interpreter.State) {
@@ -160,7 +194,11 @@ func (r *recorder) BeforeExecuteOpcode(s *interpreter.State) {
 	r.see(s)
 }
 func (r *recorder) AfterExecuteOpcode(s *interpreter.State) { r.trace = append(r.trace, 'o'); r.see(s) }
-func (r *recorder) BeforeScriptChange(s *interpreter.State) { r.trace = append(r.trace, 'C'); r.see(s) }
+func (r *recorder) BeforeScriptChange(s *interpreter.State) {
+	r.trace = append(r.trace, 'C')
+	r.scriptChanged = true
+	r.see(s)
+}
 func (r *recorder) AfterScriptChange(s *interpreter.State) {
 	r.trace = append(r.trace, 'c')
 	if s != nil && len(s.AltStack) != 0 && r.badState == "" {
@@ -175,6 +213,7 @@ func (r *recorder) AfterError(s *interpreter.State, e error) {
 }
 func (r *recorder) BeforeStackPush(s *interpreter.State, b []byte) {
 	r.trace = append(r.trace, 'P')
+	r.pushes++
 	r.see(s)
 }
 func (r *recorder) AfterStackPush(s *interpreter.State, b []byte) {
@@ -184,6 +223,7 @@ func (r *recorder) AfterStackPush(s *interpreter.State, b []byte) {
 func (r *recorder) BeforeStackPop(s *interpreter.State) { r.trace = append(r.trace, 'Q'); r.see(s) }
 func (r *recorder) AfterStackPop(s *interpreter.State, b []byte) {
 	r.trace = append(r.trace, 'q')
+	r.pops++
 	r.see(s)
 }
 
